@@ -105,12 +105,13 @@ theorem extract_wrap (o : IdxOpts) (codec : Nat) (x out : Bytes) (h : wrapV1 o c
 /-- (5) The index `WrapV1` attaches to a valid payload is the index of exactly its sections (C03). -/
 theorem wrap_index_records (o : IdxOpts) (roots : Option (List Cid)) (bs : List Block)
     (hwf : (CarHeader.mk roots 1).wf) (hmax : (encodeHeaderBody ⟨roots, 1⟩).length ≤ o.maxHeader)
-    (h63 : (encodeHeaderBody ⟨roots, 1⟩).length < 2 ^ 63) (hok : ∀ b ∈ bs, b.idxOk o) (codec : Nat) :
+    (h63 : (encodeHeaderBody ⟨roots, 1⟩).length < 2 ^ 63) (hok : ∀ b ∈ bs, b.idxOk o) (codec : Nat)
+    (hsz : (payload roots bs).length < 2 ^ 63) :
     generateIndex .seekable o codec (payload roots bs)
       = (match Index.load codec (keptRecords o (headerSize ⟨roots, 1⟩) bs) with
          | some ix => .ok ix | none => .error .other) := by
   unfold generateIndex
-  rw [loadIndexRecords_v1 .seekable o roots bs hwf hmax h63 hok]
+  rw [loadIndexRecords_v1 .seekable o roots bs hwf hmax h63 hok hsz]
   rfl
 
 /-- (6) Replacing roots with a header of a **different** encoded length fails and leaves the file
